@@ -766,15 +766,15 @@ The abstract probe outcomes `π.probes : HsProbes` are computed from the replies
 (`upencTest`, `downencTest`) and by `fragsize_check` on the reply bytes. -/
 
 /-- **`handshake_refines_negotiation`.**  From `dnsc_use_edns0 = 1` on (DNS mode: `-r`, or the raw login failed), for every
-state the login can leave (`running`, upstream codec still Base32), every path whose replies are non-empty, fit `in[]` and,
-for fragment-size probes, have at least 3 bytes: the concrete machine RETURNS, and
+state the login can leave (`running`, upstream codec still Base32), every path whose replies are non-empty and fit `in[]`
+(no other condition: since ee87c7d `fragsize_check` judges replies of 1 or 2 bytes by their own bytes too): the concrete machine
+RETURNS, and
  * its return value, `dnsc_use_edns0`, the upstream codec `dataenc`, the downstream codec `downenc` and `lazymode` are
    exactly the ones `C11L.clientHandshakeTail` computes from the configuration and the path's probe outcomes;
  * the size it asks `handshake_set_fragsize` for is the abstract `setFrag`.
 So `base32_fallback`, `negotiation_succeeds`, `forced_not_checked`, `handshake_sets_probed_size` are statements about the
 step machine that is diffed against client.c (corollaries below). -/
 theorem handshake_refines_negotiation (π : Client.HsPath) (hπ : π.Ok)
-    (h3 : ∀ n buf, π.frag n = some buf → 3 ≤ buf.length)
     (s : Client.HState) (evs : List Client.CEvent) (hrun : s.c.running = true) (henc : s.c.dataenc = .b32) :
     ∃ o : Client.HOut, Client.Reaches π (Client.dnsBranch s evs) o ∧ o.1.pos = none ∧
       o.2.2 = .finished (clientHandshakeTail (Client.cfgOf s) π.probes).rc ∧
@@ -785,18 +785,17 @@ theorem handshake_refines_negotiation (π : Client.HsPath) (hπ : π.Ok)
       (∀ f, (clientHandshakeTail (Client.cfgOf s) π.probes).setFrag = some f →
         ∃ (sm : Client.HState) (em : List Client.CEvent) (fi : Int),
           Client.Reaches π (Client.dnsBranch s evs) (Client.setFragEnter sm em fi) ∧ fi.toNat = f) :=
-  Client.hs_refines π hπ h3 s evs hrun henc
+  Client.hs_refines π hπ s evs hrun henc
 
 /-- `negotiation_succeeds` / `base32_fallback` for the concrete machine: if no fragment probe is answered with "corruption
 at byte 2" and the path answers the probes of some size 3 … N correctly, the handshake machine returns 0 — whatever the codec
 probes, the EDNS0 check and the lazy switch do; and when no probe string comes back identical it stays with Base32 upstream. -/
 theorem handshake_succeeds_on_answering_path (π : Client.HsPath) (hπ : π.Ok)
-    (h3 : ∀ n buf, π.frag n = some buf → 3 ≤ buf.length)
     (s : Client.HState) (evs : List Client.CEvent) (hrun : s.c.running = true) (henc : s.c.dataenc = .b32)
     (N : Nat) (hN : 3 ≤ N) (nf : ∀ n, π.probes.frag n ≠ .fatal) (hfrag : ∀ n, 3 ≤ n → n ≤ N → π.probes.frag n = .ok) :
     ∃ o : Client.HOut, Client.Reaches π (Client.dnsBranch s evs) o ∧ o.1.pos = none ∧ o.2.2 = .finished 0 ∧
       ((∀ p, π.probes.up p ≠ .same) → o.1.c.dataenc = .b32) := by
-  obtain ⟨o, h1, h2, h3', _, h5, _⟩ := handshake_refines_negotiation π hπ h3 s evs hrun henc
+  obtain ⟨o, h1, h2, h3', _, h5, _⟩ := handshake_refines_negotiation π hπ s evs hrun henc
   have hrc : (clientHandshakeTail (Client.cfgOf s) π.probes).rc = 0 := by
     refine (base32_fallback _ π.probes).2.2.2.2 nf ?_
     by_cases h768 : 768 ≤ N; · exact ⟨768, by decide, hfrag _ (by omega) h768⟩
@@ -817,11 +816,10 @@ theorem handshake_succeeds_on_answering_path (π : Client.HsPath) (hπ : π.Ok)
 /-- `forced_not_checked` for the concrete machine: with a downstream codec forced (`-O`), the machine ends with that codec
 whatever the path does — no reply can change it. -/
 theorem handshake_forced_not_checked (π : Client.HsPath) (hπ : π.Ok)
-    (h3 : ∀ n buf, π.frag n = some buf → 3 ≤ buf.length)
     (s : Client.HState) (evs : List Client.CEvent) (hrun : s.c.running = true) (henc : s.c.dataenc = .b32)
     (hforced : s.c.downenc ≠ 32) :
     ∃ o : Client.HOut, Client.Reaches π (Client.dnsBranch s evs) o ∧ o.1.pos = none ∧ o.1.c.downenc = s.c.downenc := by
-  obtain ⟨o, h1, h2, _, _, _, h6, _⟩ := handshake_refines_negotiation π hπ h3 s evs hrun henc
+  obtain ⟨o, h1, h2, _, _, _, h6, _⟩ := handshake_refines_negotiation π hπ s evs hrun henc
   refine ⟨o, h1, h2, ?_⟩
   rw [h6, (Client.tail_fields _ _).2.2.1]
   simp [Client.cfgOf, hforced]
@@ -844,7 +842,7 @@ example : clientHandshakeTail ⟨T_CNAME, 32, true, true, 0⟩ examplePath.probe
   decide +kernel
 
 /-- … and the path satisfies the hypotheses of `handshake_refines_negotiation` -/
-example : examplePath.Ok ∧ (∀ n buf, examplePath.frag n = some buf → 3 ≤ buf.length) := by
+example : examplePath.Ok := by
   have hfrag : ∀ n buf, examplePath.frag n = some buf → 3 ≤ buf.length ∧ buf.length ≤ 4095 := by
     intro n buf h
     simp only [examplePath] at h
@@ -855,7 +853,6 @@ example : examplePath.Ok ∧ (∀ n buf, examplePath.frag n = some buf → 3 ≤
     intro p
     unfold Client.upPattern
     split <;> decide
-  refine ⟨?_, fun n buf h => (hfrag n buf h).1⟩
   intro p buf h
   cases p <;> simp only [Client.HsPath.replyAt, examplePath] at h <;> try (cases h; done)
   all_goals first
